@@ -582,6 +582,24 @@ class AMDual(AM):
         raise AssertionError("harness: the sync protocol of a manager entered with `async with` was used")
 
 
+class MEq(M):
+    """a manager with value semantics (a dataclass, say): equal to every other one with the same number"""
+
+    def __eq__(self, other):
+        return isinstance(other, (MEq, AMEq)) and other.k == self.k
+
+    def __hash__(self):
+        return hash(self.k)
+
+
+class AMEq(AM):
+    def __eq__(self, other):
+        return isinstance(other, (MEq, AMEq)) and other.k == self.k
+
+    def __hash__(self):
+        return hash(self.k)
+
+
 def noop():
     S.events.append(("noop",))
 
@@ -703,6 +721,8 @@ class R:
             cls += it["exitname"]
         elif it.get("exitname") == "Dual":
             cls += "Dual"
+        elif it.get("exitname") == "Eq":
+            cls += "Eq"
         return cls, args, tgt
 
     def render_with(self, s, ind):
@@ -846,6 +866,10 @@ class R:
         self.emit(1, "FR.append(sys._getframe())")
         if any(it.get("target") == "global_name" for it in _all_items(self.p["body"])):
             self.emit(1, "global GV")
+        for it in _all_items(self.p["body"]):
+            if it.get("exitname") == "Eq":
+                # a different object that compares equal to the manager, held in a local that comes early in f_locals
+                self.emit(1, "eqdecoy%d = MEq(%d)" % (it["m"], it["m"]))
         self.emit(1, "ns = NS(); ns.sub = NS(); ns.sub.slots = {}; dct = S.dct; key = 'kk'; lst = [0, 1, 2, 3]; "
                      "grid = [[0, 0], [0, 0]]")
         self.block(self.p["body"], 1)
@@ -905,7 +929,7 @@ class Driver:
             pass
 
 
-def observe_suspended(obj, kind, where):
+def observe_suspended(obj, kind, where, via=None):
     frame = getattr(obj, {"gen": "gi_frame", "coro": "cr_frame", "agen": "ag_frame"}[kind])
     if frame is None:
         return
@@ -983,6 +1007,23 @@ def observe_suspended(obj, kind, where):
                     check_referents(stk.frames[0].contexts, where)
                 else:
                     add_obs("ref.frames", where, got=[f.funcname for f in stk.frames])
+            if via is not None and stk is not None:
+                # the same frame reached THROUGH another stack item (the asend()/athrow() awaitable that is driving the
+                # async generator): which object owns the frame must survive the hop, or the analysis looks in the wrong place
+                S.bump("ref.via_awaitable")
+                with warnings.catch_warnings(record=True) as w:
+                    warnings.simplefilter("always")
+                    try:
+                        stk2 = extract(via)
+                    except BaseException as ex:
+                        add_obs("ref.raised", where + ["via-awaitable"], exc=repr(ex))
+                        stk2 = None
+                note_warnings(w, where + ["via-awaitable"], "ref")
+                if stk2 is not None:
+                    if stk2.frames and stk2.frames[0].pyframe is frame:
+                        check_referents(stk2.frames[0].contexts, where + ["via-awaitable"])
+                    else:
+                        add_obs("ref.frames", where + ["via-awaitable"], got=[f.funcname for f in stk2.frames])
         finally:
             set_trickery_enabled(None)
 
@@ -992,7 +1033,7 @@ def compile_program(prog):
     src = r.render()
     fname = "<g1-prog>"
     linecache.cache[fname] = (len(src), None, src.splitlines(True), fname)
-    ns = {"M": M, "AM": AM, "MAlias": MAlias, "AMAlias": AMAlias, "MDeco": MDeco, "AMDeco": AMDeco, "MDual": MDual, "AMDual": AMDual, "E1": E1, "E2": E2, "NS": NS, "trap": trap, "probe": probe, "cprobe": functools.partial(probe), "noop": noop,
+    ns = {"M": M, "AM": AM, "MAlias": MAlias, "AMAlias": AMAlias, "MDeco": MDeco, "AMDeco": AMDeco, "MDual": MDual, "AMDual": AMDual, "MEq": MEq, "AMEq": AMEq, "E1": E1, "E2": E2, "NS": NS, "trap": trap, "probe": probe, "cprobe": functools.partial(probe), "noop": noop,
           "FR": S.fr, "sys": sys, "tick": tick, "S": S, "kwget": kwget, "pick": pick, "GV": None,
           "__name__": "g1prog"}
     with warnings.catch_warnings():
@@ -1045,7 +1086,7 @@ def run_program(prog, modes, extract_at=None, repeat=1, inject=None):
                 result = v
                 break
             if S.extract_at is None or ("s", i) in S.extract_at:
-                observe_suspended(obj, kind, ["susp", i, v])
+                observe_suspended(obj, kind, ["susp", i, v], via=d.aw if kind == "agen" else None)
             action = sched[i % len(sched)]
         else:
             S.bump("step_limit")
